@@ -90,6 +90,33 @@ def awk(pars_list, pivs=None, errs=None, layout="flat"):
         kw["pivot"] = ak.zip({"x": pv[:, 0], "y": pv[:, 1], "z": pv[:, 2]}, with_name="Vector3D")
     return p3.helix_awk(**kw)
 
+def near_centre_pivot(par, p0):
+    """a new pivot close to (not numerically on) the circle centre: |r| * 10^-3.5 .. |r| / 10 away, at least 0.01 cm"""
+    c = centre(par, p0); r = abs(ALPHA / par[2])
+    d = max(0.01, r * 10 ** rng.uniform(-3.5, -1)); t = rng.uniform(0, TWO_PI)
+    bump("pivot:near-centre")
+    return [c[0] + d * math.cos(t), c[1] + d * math.sin(t), rng.uniform(-5, 5)]
+
+def int_columns_move(prefix):
+    """integer-typed parameter columns (as read from an integer branch / built from Python ints) moved to a fractional pivot given as
+    plain numbers: the reported pivot is the requested one and every track equals the object moved the same way"""
+    global n_eval
+    ipar = [float(rng.randrange(-3, 4)), float(rng.randrange(0, 6)), float(rng.choice([-2, -1, 1, 2])), float(rng.randrange(-4, 5)), float(rng.randrange(-2, 3))]
+    fp = [rng.uniform(-3, 3) + 0.5, rng.uniform(-3, 3) + 0.25, rng.uniform(-3, 3) + 0.75]
+    cols = {c: ak.Array(np.array([ipar[k], ipar[k]], dtype=np.int64)) for k, c in enumerate(["dr", "phi0", "kappa", "dz", "tanl"])}
+    ho = obj(ipar, [0.0, 0.0, 0.0]).change_pivot(*fp); want = pars(ho) + fp
+    for form, args in (("xyz", tuple(fp)), ("tuple", (tuple(fp),)), ("vector", (vector.obj(x=fp[0], y=fp[1], z=fp[2]),))):
+        bump(f"intcols-move:{form}")
+        for fe in ("arr", "rec"):
+            ha = p3.helix_awk(**cols)
+            out = ha.change_pivot(*args) if fe == "arr" else ha[0].change_pivot(*args); n_eval += 1
+            g = (lambda v: float(v[1])) if fe == "arr" else float
+            got = [g(out[f]) for f in ("dr", "phi0", "kappa", "dz", "tanl")] + [g(out.pivot[c]) for c in "xyz"]
+            if got[5:] != fp:
+                report(f"{prefix}:pivot-not-reported:int-columns:{fe}", f"integer-typed columns moved to pivot {fp} ({form} form) report pivot {got[5:]}", {"par": ipar, "new_pivot": fp, "form": form})
+            elif any(abs(a - b) > 1e-9 * (1 + abs(b)) + 1e-9 * abs(ALPHA / ipar[2]) for a, b in zip(got, want)):
+                report(f"{prefix}:array-differs-from-object:int-columns:{fe}", f"integer-typed columns moved to {fp}: {got} vs object {want}", {"par": ipar, "new_pivot": fp, "form": form})
+
 # ------------------------------------------------------------------------------------------------ validate
 def do_validate():
     global n_eval
@@ -134,6 +161,7 @@ def do_c06():
     n = 500 if tier == "quick" else 5000
     for i in range(n + len(CORNERS)):
         par, p0, p1 = corner(i) or (gen_helix(), gen_pivot(), gen_pivot())
+        if i >= len(CORNERS) and i % 8 == 0: p1 = near_centre_pivot(par, p0)
         c = centre(par, p0)
         if math.hypot(c[0] - p1[0], c[1] - p1[1]) < 1e-3: continue
         fe = rng.choice(["obj", "rec", "arr"])
@@ -208,6 +236,8 @@ def do_c11():
         fe = rng.choice(["obj", "rec", "arr"]); q = "pos" if par[2] > 0 else "neg"
         E = gen_error() if rng.random() < 0.5 else None
         seq = [cc[2]] if cc else [gen_pivot() for _ in range(rng.randrange(1, 5))]
+        if not cc and i % 8 == 0: seq[rng.randrange(len(seq))] = near_centre_pivot(par, p0)
+        if i % 10 == 0: int_columns_move("C11")
         c = centre(par, p0)
         if any(math.hypot(c[0] - p[0], c[1] - p[1]) < 1e-3 for p in seq + [p0]): continue
         sc = scale(par, p0, seq[-1]); pitch = abs(TWO_PI * (ALPHA / par[2]) * par[4])
@@ -235,6 +265,13 @@ def do_c11():
             report(f"C11:dz-path-dependent:{q}:{fe}", "dz after a sequence of pivots is not the direct dz up to whole pitches", {"par": par, "pivot": p0, "seq": seq, "chained": cur, "direct": direct})
         if abs(acc) < math.pi - 1e-6 and k != 0 and abs(ddz) > 1e-7 * sc * (1 + abs(par[4])) * len(seq):
             report(f"C11:dz-not-exact-within-half-turn:{q}:{fe}", "accumulated turning angle within half a turn but dz differs", {"par": par, "pivot": p0, "seq": seq})
+        # the error matrix is part of the result: within half a turn the chained and the direct matrices agree
+        if E is not None and abs(acc) < math.pi - 1e-6 and k == 0 and ce is not None and de is not None:
+            n_eval += 1
+            sd = np.sqrt(np.abs(np.diag(de))) + 1e-300
+            if np.abs((ce - de) / np.outer(sd, sd)).max() > 1e-5 * len(seq) and not np.allclose(ce, de, rtol=1e-6, atol=1e-12 * (1 + np.abs(de).max())):
+                report(f"C11:error-path-dependent:{q}:{fe}", "error matrix after a sequence of pivots differs from the direct move (accumulated turning angle within half a turn)",
+                       {"par": par, "pivot": p0, "seq": seq, "error": E.tolist()})
         if canonical(par):
             same, _, se = move(fe, par, p0, p0, E); n_eval += 1
             if abs(same[0] - par[0]) > 1e-8 * sc or abs(wrap(same[1] - par[1])) > 1e-9 or abs(same[3] - par[3]) > 1e-8 * sc:
@@ -251,6 +288,65 @@ def do_c11():
     samples.append({"helix": par, "pivot": p0, "sequence": seq, "form": fe})
 
 # ------------------------------------------------------------------------------------------------ C13
+def call_forms(par, p0, E, p1):
+    """every documented way of writing the same helix, the same pivot and the same move gives the same helix"""
+    global n_eval
+    dr, phi0, kappa, dz, tanl = par
+    pv_forms = {"tuple": tuple(p0), "vector": vector.obj(x=p0[0], y=p0[1], z=p0[2]), "record": ak.Record({"x": p0[0], "y": p0[1], "z": p0[2]})}
+    ref = obj(par, p0, E); want = pars(ref) + piv_of(ref)
+    for pname, pv in pv_forms.items():
+        makers = {"positional": lambda: p3.helix_obj(dr, phi0, kappa, dz, tanl, pivot=pv, error=E),
+                  "keyword": lambda: p3.helix_obj(dr=dr, phi0=phi0, kappa=kappa, dz=dz, tanl=tanl, pivot=pv, error=E),
+                  "params": lambda: p3.helix_obj(params=(dr, phi0, kappa, dz, tanl), pivot=pv, error=E),
+                  "params-awkward-error": lambda: p3.helix_obj(params=(dr, phi0, kappa, dz, tanl), pivot=pv, error=ak.Array(E))}
+        for cname, mk in makers.items():
+            bump(f"callform:obj:{cname}:{pname}")
+            h = mk(); got = pars(h) + piv_of(h); n_eval += 1
+            if got != want or not np.array_equal(np.asarray(h.error), E):
+                report(f"C13:constructor-forms-differ:helix_obj:{cname}:{pname}-pivot", f"helix_obj {cname} form with a {pname} pivot: {got}, expected {want}", {"par": par, "pivot": p0})
+    moved = ref.change_pivot(*p1); wantm = pars(moved) + piv_of(moved)
+    for aname, args in (("tuple", (tuple(p1),)), ("vector", (vector.obj(x=p1[0], y=p1[1], z=p1[2]),)), ("record", (ak.Record({"x": p1[0], "y": p1[1], "z": p1[2]}),))):
+        bump(f"callform:obj.change_pivot:{aname}")
+        h = ref.change_pivot(*args); got = pars(h) + piv_of(h); n_eval += 1
+        if got != wantm:
+            report(f"C13:constructor-forms-differ:change_pivot:{aname}", f"change_pivot with a {aname} argument: {got}, with x, y, z: {wantm}", {"par": par, "pivot": p0, "new_pivot": p1})
+    # array constructor: positional helix / error / pivot, helix=, columns
+    other = gen_helix(); E2 = gen_error()
+    raw = ak.Array(np.array([other, par])); err = ak.Array(np.array([E2, E]))
+    cols = {c: raw[..., k] for k, c in enumerate(["dr", "phi0", "kappa", "dz", "tanl"])}
+    apv = dict(pv_forms); apv["array"] = ak.zip({"x": [p0[0]] * 2, "y": [p0[1]] * 2, "z": [p0[2]] * 2}, with_name="Vector3D")
+    for pname, pv in apv.items():
+        makers = {"positional(helix,error,pivot)": lambda: p3.helix_awk(raw, err, pv),
+                  "positional(helix,error)+pivot=": lambda: p3.helix_awk(raw, err, pivot=pv),
+                  "positional(helix)+error=+pivot=": lambda: p3.helix_awk(raw, error=err, pivot=pv),
+                  "helix=": lambda: p3.helix_awk(helix=raw, error=err, pivot=pv),
+                  "columns": lambda: p3.helix_awk(**cols, error=err, pivot=pv)}
+        for cname, mk in makers.items():
+            bump(f"callform:awk:{cname}:{pname}")
+            a = mk(); n_eval += 1
+            got = [float(a[f][1]) for f in ("dr", "phi0", "kappa", "dz", "tanl")] + [float(a.pivot[c][1]) for c in "xyz"]
+            pos = [float(a.position[c][1]) for c in "xyz"]; wpos = [ref.position.x, ref.position.y, ref.position.z]
+            if got != want or not np.array_equal(ak.to_numpy(a.error[1]), E) or any(abs(g - w) > 1e-12 * (1 + abs(w)) for g, w in zip(pos, wpos)):
+                report(f"C13:constructor-forms-differ:helix_awk:{cname}:{pname}-pivot", f"helix_awk {cname} with a {pname} pivot: track {got} position {pos}, object {want} position {wpos}", {"par": par, "pivot": p0})
+    # default pivot
+    for cname, a in (("positional", p3.helix_awk(raw)), ("positional+error", p3.helix_awk(raw, err)), ("columns", p3.helix_awk(**cols))):
+        n_eval += 1
+        if [float(a.pivot[c][1]) for c in "xyz"] != [0.0, 0.0, 0.0] or [float(a[f][1]) for f in ("dr", "phi0", "kappa", "dz", "tanl")] != par:
+            report(f"C13:constructor-forms-differ:helix_awk:{cname}:default-pivot", "default pivot is not the origin / parameters differ", {"par": par})
+    # physics-quantity constructor: momentum / position given as tuple, vector object, Awkward record
+    mom, pos = ref.momentum, ref.position
+    mforms = {"vector": mom, "tuple": (mom.px, mom.py, mom.pz), "record": ak.Record({"px": mom.px, "py": mom.py, "pz": mom.pz})}
+    pforms = {"vector": pos, "tuple": (pos.x, pos.y, pos.z), "record": ak.Record({"x": pos.x, "y": pos.y, "z": pos.z})}
+    base = None
+    for mn, mv in mforms.items():
+        for pn, pp in pforms.items():
+            for pvn, pv in pv_forms.items():
+                bump(f"callform:obj-physics:{mn}:{pn}:{pvn}")
+                h = p3.helix_obj(momentum=mv, position=pp, charge=ref.charge, pivot=pv); got = pars(h) + piv_of(h); n_eval += 1
+                if base is None: base = got
+                if any(abs(g - b) > 1e-9 * (1 + abs(b)) for g, b in zip(got, base)):
+                    report(f"C13:constructor-forms-differ:helix_obj:physics:{mn}-momentum:{pn}-position:{pvn}-pivot", f"{got} vs {base}", {"par": par, "pivot": p0})
+
 def do_c13():
     global n_eval
     n = 500 if tier == "quick" else 5000
@@ -282,6 +378,7 @@ def do_c13():
                 want = (ho.position.x, ho.position.y, ho.position.z, fp[0], fp[1], fp[2])
                 if any(abs(g - w) > 1e-9 * (1 + abs(w)) for g, w in zip(got, want)):
                     report(f"C13:container-forms-differ:int-columns:{pv_kind}-pivot", f"helix_awk with integer-typed columns and pivot {fp}: position/pivot {got} vs object {want}", {"par": ipar, "pivot": fp})
+        if i % 10 == 0: call_forms(par, p0, gen_error(), gen_pivot())
         # three ways of passing parameters
         h1 = p3.helix_obj(dr, phi0, kappa, dz, tanl, pivot=tuple(p0)); h2 = p3.helix_obj(dr=dr, phi0=phi0, kappa=kappa, dz=dz, tanl=tanl, pivot=tuple(p0))
         h3 = p3.helix_obj(params=(dr, phi0, kappa, dz, tanl), pivot=vector.obj(x=p0[0], y=p0[1], z=p0[2])); n_eval += 3
@@ -457,6 +554,20 @@ def do_c07():
                 got = [float(ha1[f][0]) for f in fields]; want = pars(ho)
                 if any(abs(g - w) > 1e-9 * scale(cpar, cp0, cp1) * (1 + abs(cpar[4])) for g, w in zip(got, want)):
                     report("C07:array-differs-from-object:change_pivot:boundary", f"boundary case (exact 0 / pi angles): array {got} object {want}", {"par": cpar, "pivot": cp0, "new_pivot": cp1})
+        # isclose on arrays whose phi0 is written outside [0, 2*pi) (a legal way of writing the same direction), same and different pivots,
+        # identical and perturbed partners: per track the answer of the object form
+        if i % 3 == 0:
+            bump("isclose:raw-phi0")
+            Pa = [[pp[0], pp[1] + rng.choice([-TWO_PI, 0.0, TWO_PI, -4 * math.pi]), pp[2], pp[3], pp[4]] for pp in P]
+            Pb = [list(pp) if rng.random() < 0.5 else [pp[0] + rng.choice([0.0, 1e-3]), pp[1] + rng.choice([0.0, TWO_PI, 1e-3]), pp[2], pp[3], pp[4]] for pp in Pa]
+            for pb in (p0, p1):
+                ga = ak.to_numpy(awk(Pa, [p0] * m).isclose(awk(Pb, [pb] * m))); n_eval += 1
+                for j in range(m):
+                    wo = bool(obj(Pa[j], p0).isclose(obj(Pb[j], pb)))
+                    if bool(ga[j]) != wo:
+                        report("C07:array-differs-from-object:isclose:raw-phi0", f"track {j}: array isclose {bool(ga[j])}, object isclose {wo} (phi0 written outside [0, 2*pi), partner pivot {'same' if pb is p0 else 'different'})",
+                               {"tracks": Pa, "partners": Pb, "pivot": p0, "partner_pivot": pb}); break
+        if i % 6 == 0: int_columns_move("C07")
         # permutation equivariance on the flat layout
         perm = list(range(m)); rng.shuffle(perm)
         a1 = awk(P, [p0] * m).change_pivot(*p1); a2 = awk([P[k] for k in perm], [p0] * m).change_pivot(*p1); n_eval += 1
@@ -477,19 +588,24 @@ def fmap(par, p0, p1):
 def do_c12():
     global n_eval
     n = 150 if tier == "quick" else 1500
-    for i in range(n):
-        par, p0, p1 = gen_helix(rng.choice(["typ", "typ", "low_pt", "high_pt", "drneg"])), gen_pivot(), gen_pivot()
+    for i in range(n + len(CORNERS)):
+        par, p0, p1 = corner(i) or (gen_helix(rng.choice(["typ", "typ", "low_pt", "high_pt", "drneg"])), gen_pivot(), gen_pivot())
+        if i >= len(CORNERS) and i % 10 == 0:
+            # radial moves (turning angle 0 up to rounding): onto the helix' own reference point, and along the line pivot - centre
+            t = rng.choice([1.0, rng.uniform(-3, 3)]); bump("pivot:radial")
+            p1 = [p0[0] + t * par[0] * math.cos(par[1]) + (0 if t == 1.0 else t * math.cos(par[1])), p0[1] + t * par[0] * math.sin(par[1]) + (0 if t == 1.0 else t * math.sin(par[1])), p0[2] + rng.uniform(-2, 2)]
         c = centre(par, p0)
         if math.hypot(c[0] - p1[0], c[1] - p1[1]) < 0.5: continue
         base = fmap(par, p0, p1)
-        if abs(abs(wrap(base[1] - par[1])) - math.pi) < 1e-2 or base[1] < 1e-3 or base[1] > TWO_PI - 1e-3: continue
+        if abs(abs(wrap(base[1] - par[1])) - math.pi) < 1e-2: continue
         q = "pos" if par[2] > 0 else "neg"
         E = gen_error()
         J = np.zeros((5, 5))
         for j in range(5):
             hstep = 1e-6 * max(1.0, abs(par[j]))
             up = list(par); up[j] += hstep; dn = list(par); dn[j] -= hstep
-            J[:, j] = (fmap(up, p0, p1) - fmap(dn, p0, p1)) / (2 * hstep)
+            dv = fmap(up, p0, p1) - fmap(dn, p0, p1); dv[1] = wrap(dv[1])      # phi0 is an angle: difference across the 0 / 2*pi seam
+            J[:, j] = dv / (2 * hstep)
         want = J @ E @ J.T
         for fe in ("obj", "arr"):
             if fe == "obj": got = np.asarray(obj(par, p0, E).change_pivot(*p1).error)
